@@ -331,3 +331,20 @@ def field_mutation_sites(F, adt_id, field, bodies=None):
                     if bb in live:
                         out.append((b, bb, "assign-call", t.get("line", 0)))
     return out
+
+
+def deep_names(b, place, at, hops=5):
+    """field names and callee names met while following a value back through receiver (arg0) chains"""
+    fields, calls = set(), set()
+    work = [(place, at, hops)]
+    seen = set()
+    while work:
+        pl, at_, h = work.pop()
+        for o in flow.origins(b, pl, at=at_):
+            fields |= set(o.field_names())
+            if o.kind == "call":
+                calls.add(o.call.name())
+                if h > 0 and o.call.bb not in seen and o.call.args and op_place(o.call.args[0]) is not None:
+                    seen.add(o.call.bb)
+                    work.append((op_place(o.call.args[0]), (o.call.bb, "T"), h - 1))
+    return fields, calls
